@@ -6,9 +6,11 @@ use crate::subscriptions::outstanding::OutstandingMessageTracker;
 use crate::subscriptions::subscription_manager::SubscriptionManagerDelegate;
 use crate::subscriptions::{
     AckDeadline, AckId, AcknowledgeMessagesError, DeadlineModification, PulledMessage,
-    SubscriptionInfo, SubscriptionStats,
+    Subscription, SubscriptionInfo, SubscriptionStats,
 };
-use crate::topics::{RemoveSubscriptionError, Topic, TopicMessage, TopicName};
+use crate::topics::{
+    AttachSubscriptionError, RemoveSubscriptionError, Topic, TopicMessage, TopicName,
+};
 use futures::future::Shared;
 use futures::FutureExt;
 use parking_lot::Mutex;
@@ -21,6 +23,10 @@ const MAX_PULL_COUNT: u16 = 1_000;
 
 /// Requests for the `SubscriptionActor`.
 pub enum SubscriptionRequest {
+    Attach {
+        subscription: Arc<Subscription>,
+        responder: oneshot::Sender<Result<(), AttachSubscriptionError>>,
+    },
     PostMessages {
         messages: Vec<Arc<TopicMessage>>,
     },
@@ -140,6 +146,13 @@ impl SubscriptionActor {
     /// Receives a request.
     async fn receive(&mut self, request: SubscriptionRequest) {
         match request {
+            SubscriptionRequest::Attach {
+                subscription,
+                responder,
+            } => {
+                let result = self.attach(subscription).await;
+                let _ = responder.send(result);
+            }
             SubscriptionRequest::PostMessages { messages } => {
                 self.post_messages(messages);
             }
@@ -172,6 +185,23 @@ impl SubscriptionActor {
                 let result = self.get_stats();
                 let _ = responder.send(result);
             }
+        }
+    }
+
+    /// Attaches the subscription to its topic.
+    ///
+    /// This is the first request a subscription ever receives (it is enqueued
+    /// before the subscription becomes visible to anyone else), which makes the
+    /// attachment independent of the creating caller and orders it before any
+    /// deletion of the subscription. The topic does not post to us before we are
+    /// attached, so waiting for it here cannot form a cycle.
+    async fn attach(
+        &mut self,
+        subscription: Arc<Subscription>,
+    ) -> Result<(), AttachSubscriptionError> {
+        match self.topic.upgrade() {
+            Some(topic) => topic.attach_subscription(subscription).await,
+            None => Err(AttachSubscriptionError::Closed),
         }
     }
 
